@@ -16,11 +16,12 @@ fn main() {
     mc_core::quiet_panics();
     if let Some(group) = cli.extra.get("worker") {
         harness::install_crash_handlers();
-        let mut ctx = harness::Ctx::new(cli.tier, cli.seed);
+        let mut tasks = harness::Tasks::new(cli.tier, cli.seed);
         match cli.property.as_str() {
-            "C05" => c05::run_group(&mut ctx, group),
+            "C05" => c05::run_group(&mut tasks, group),
             other => mc_core::machinery_error(&format!("mc-codec worker does not serve {other}")),
         }
+        let ctx = tasks.run();
         println!("WORKER-RESULT {}", ctx.to_json());
         return;
     }
